@@ -1446,6 +1446,9 @@ class Pregex():
             :param str pattern: The pattern that is to be examined.
             '''
             if pattern.startswith('(') and pattern.endswith(')'):
+                if _re.match(r"\(\?<?[=!]", pattern) is not None:
+                    # A lookaround is an assertion, not a group.
+                    return False
                 n_open = 0
                 for i in range(1, len(pattern) - 1):
                     prev_char, curr_char = pattern[i-1], pattern[i]
@@ -1472,6 +1475,8 @@ class Pregex():
             elif _re.fullmatch(r"\\b", pattern,
                 flags=__class__.__flags | _re.IGNORECASE) is not None:
                 return _Type.Assertion, True
+            elif _re.fullmatch(r"\^|\$|\\A|\\Z", pattern) is not None:
+                return _Type.Assertion, False
             else:
                 return _Type.Token, True
 
@@ -1488,10 +1493,10 @@ class Pregex():
 
         if len(_re.split(pattern=r"(?<!\\)\|", string=temp)) > 1:
                 return _Type.Alternation, True
-        elif _re.fullmatch(r"(?:\^|\\A|\(\?<=.+\)).+|.+(?:(?<!\\)\$|\\Z|\(\?=.+\))",
+        elif _re.fullmatch(r"(?:\^|\\A|\(\?<=.+\)).*|.*(?:(?<!\\)\$|\\Z|\(\?=.+\))",
             pattern, flags=__class__.__flags) is not None:
             return _Type.Assertion, False
-        elif _re.fullmatch(r"(?:\\b|\\B|\(\?<!.+\)).+|.+(?:\\b|\\B|\(\?!.+\))",
+        elif _re.fullmatch(r"(?:\\b|\\B|\(\?<!.+\)).*|.*(?:\\b|\\B|\(\?!.+\))",
             pattern, flags=__class__.__flags) is not None:
             return _Type.Assertion, True
         elif _re.fullmatch(r"(?:\\.|[^\\])?(?:\?|\*|\+|\{(?:\d+|\d+,|,\d+|\d+,\d+)\})",
